@@ -19,8 +19,11 @@
 #include <set>
 #include <sstream>
 #include <string>
+#include <type_traits>
+#include <memory>
 #include <vector>
 #include <unistd.h>
+#include <sys/wait.h>
 
 namespace bj = boost::json;
 
@@ -173,9 +176,14 @@ inline void install_crash_handlers() {
 //     bj::object apply(const bj::object& act);   executes, returns observed fields of the action (ret, added_set..)
 //     bj::object observe();                      projection through the public read API
 //     void mask(bj::object& obs)                 (optional) remove keys this configuration cannot observe
+// optional Model::set_final(bool): told whether the next observation is the last one of the behaviour
+template <class M, class = void> struct has_set_final : std::false_type {};
+template <class M> struct has_set_final<M, std::void_t<decltype(std::declval<M&>().set_final(true))>> : std::true_type {};
+template <class M> inline void set_final(M& m, bool f) { if constexpr (has_set_final<M>::value) m.set_final(f); }
+
 struct ReplayStats {
   std::string cfg;
-  long behaviours = 0, steps = 0, skipped = 0, deviations = 0;
+  long behaviours = 0, steps = 0, skipped = 0, deviations = 0, group = -1;
 };
 
 struct ReplayCtx {
@@ -208,6 +216,7 @@ bool check_step(Model& m, const bj::object& act, const bj::object& got_act, cons
     bj::object o;
     o["kind"] = "deviation";
     o["cfg"] = st.cfg;
+    o["g"] = st.group;  // line of the groups file (0-based): replays the behaviour
     o["u"] = u;
     o["k"] = k;
     o["step"] = step;
@@ -222,13 +231,35 @@ bool check_step(Model& m, const bj::object& act, const bj::object& got_act, cons
 }
 
 template <class Model>
+void replay_config_inproc(ReplayCtx& ctx);
+
+// Each configuration runs in a forked child so that a crash inside the library (reported by the crash
+// handler as a "crash" record) does not lose the configurations that follow.  VF_FORK=0 disables.
+template <class Model>
 void replay_config(ReplayCtx& ctx) {
+  const char* e = std::getenv("VF_FORK");
+  if (e && std::string(e) == "0") { replay_config_inproc<Model>(ctx); return; }
+  std::fflush(ctx.out);
+  pid_t pid = fork();
+  if (pid == 0) { replay_config_inproc<Model>(ctx); std::fflush(ctx.out); _exit(0); }
+  int status = 0;
+  waitpid(pid, &status, 0);
+  if (WIFSIGNALED(status) || (WIFEXITED(status) && WEXITSTATUS(status) != 0 && WEXITSTATUS(status) != 3)) {
+    std::fprintf(ctx.out, "{\"kind\":\"crash\",\"signal\":%d,\"where\":%s}\n", WIFSIGNALED(status) ? WTERMSIG(status) : -WEXITSTATUS(status),
+                 bj::serialize(bj::value(std::string(Model::name()) + " (child died without a report)")).c_str());
+  }
+  std::fflush(ctx.out);
+}
+
+template <class Model>
+void replay_config_inproc(ReplayCtx& ctx) {
   ReplayStats st;
   st.cfg = Model::name();
   long gi = -1;
   for (auto& gv : ctx.groups) {
     ++gi;
     if (gi % ctx.nshards != ctx.shard) continue;
+    st.group = gi;
     const bj::object& g = gv.as_object();
     std::int64_t u = g.at("u").as_int64();
     const bj::array& path = g.at("path").as_array();
@@ -250,7 +281,8 @@ void replay_config(ReplayCtx& ctx) {
       int step = 0;
       for (auto& sv : path) {
         const bj::object& s = sv.as_object();
-        crash_ctx().where = st.cfg + " path u=" + std::to_string(u) + " step=" + std::to_string(step);
+        crash_ctx().where = st.cfg + " g=" + std::to_string(gi) + " path u=" + std::to_string(u) + " step=" + std::to_string(step);
+        set_final(m, edges.empty() && step + 1 == static_cast<int>(path.size()));
         bj::object got;
         try { got = m.apply(s.at("act").as_object()); } catch (const std::exception& e) { got["exception"] = e.what(); }
         st.steps++;
@@ -266,8 +298,10 @@ void replay_config(ReplayCtx& ctx) {
       std::int64_t k = e.at("k").as_int64();
       Model m;
       if (!m.applicable(act) || !m.state_ok(ctx.states[e.at("to").as_int64()].as_object())) { st.skipped++; continue; }
+      set_final(m, false);
       for (auto& sv : path) m.apply(sv.as_object().at("act").as_object());
-      crash_ctx().where = st.cfg + " edge u=" + std::to_string(u) + " k=" + std::to_string(k);
+      set_final(m, true);
+      crash_ctx().where = st.cfg + " g=" + std::to_string(gi) + " edge u=" + std::to_string(u) + " k=" + std::to_string(k);
       bj::object got;
       try { got = m.apply(act); } catch (const std::exception& ex) { got["exception"] = ex.what(); }
       st.steps += path.size() + 1;
